@@ -72,10 +72,14 @@ theorem normN_sound (L : Laws I WT) (hWT : ∀ t x, x ∈ eval I ρ t → WT x) 
 theorem certify_sound (L : Laws I WT) (hWT : ∀ t x, x ∈ eval I ρ t → WT x)
     (before after : Term) (hb : AnnotSound I ρ before) (ha : AnnotSound I ρ after)
     (h : certify before after = true) : eval I ρ after = eval I ρ before := by
-  simp only [certify, beq_iff_eq] at h
-  have eb := (normN_sound I ρ WT L hWT 3 before hb).1
   have ea := (normN_sound I ρ WT L hWT 3 after ha).1
-  rw [← ea, ← eb, ← erase_eval I ρ (normN 3 after), ← erase_eval I ρ (normN 3 before), h]
+  simp only [certify, certify1, Bool.or_eq_true, beq_iff_eq] at h
+  rcases h with h | h
+  · have eb := (normN_sound I ρ WT L hWT 3 before hb).1
+    rw [← ea, ← eb, ← erase_eval I ρ (normN 3 after), ← erase_eval I ρ (normN 3 before), h]
+  · have eb := (normN_sound I ρ WT L hWT 3 (stripApp before) (annotSound_stripApp I ρ before hb)).1
+    rw [← ea, ← eval_stripApp I ρ before, ← eb, ← erase_eval I ρ (normN 3 after),
+      ← erase_eval I ρ (normN 3 (stripApp before)), h]
 
 /-! ### Non-vacuity: a concrete interpretation satisfying the laws, and concrete verdicts -/
 
@@ -117,6 +121,7 @@ theorem demoI_laws : Laws demoI (fun _ => True) where
   swish := by intro v; simp [demoI]
   swish' := by intro v; simp [demoI]
   reshape_reshape := by intros; rfl
+  reshape_numel := by intros; rfl
   reshape_same := by intros; rfl
   reshape_pw := by intros; rfl
   reshape_pw_sc := by intros; rfl
